@@ -181,7 +181,7 @@ def evaluate(ctx, idx_cases, rw_cases, cfgs):
 
 def run(ctx):
     idx, rw = gen(ctx)
-    cfgs = ["dbg", "bmi2"] if ctx.quick else ["dbg", "bmi2", "rel", "relbmi2"]
+    cfgs = ["dbg", "bmi2", "relbmi2"] if ctx.quick else ["dbg", "bmi2", "rel", "relbmi2"]
     return evaluate(ctx, idx, rw, cfgs)
 
 
